@@ -3,6 +3,7 @@ harness counters become the evidence coverage block."""
 
 RT = ["vh_rt.c"]
 from . import c20 as _c20
+from . import c19 as _c19
 
 
 def _cov(rule, extra=None):
@@ -498,4 +499,34 @@ CHECKS["C20"] = dict(
         note="gcc -O2 -fPIC -DPIC build linked with the tree's generated version script; the released 4.4.33 library and header in the image are the reference.",
         technique="exhaustive enumeration of the binary interface (symbol versions, layout, constants) and differential old-client replay against the released library",
         ref="DESIGN.md 3/C20"),
+)
+
+
+CHECKS["C19"] = dict(
+    level="exploration",
+    jobs=lambda tier: [dict(name="c19", variant="o1", script=_c19.run)],
+    coverage=_cov("Level 1 (generator level): the tree's expand-selected-hashes, gen-crypt-hashes-h and gen-crypt-h are run for hash selections "
+                  "- quick: all selections of size 1, 2, 14, 15, 16 (273); thorough: all 65 535 non-empty subsets - plus every named group, and "
+                  "INCLUDE_* values, dispatch-table order (longest prefix first, empty prefix last, bigcrypt before descrypt, no shadowing), "
+                  "HASH_ALGORITHM_DEFAULT and CRYPT_GENSALT_IMPLEMENTS_DEFAULT_PREFIX are compared with an independent model. Level 2 "
+                  "(compiled): interaction clusters are derived on every run from the INCLUDE_* tokens co-occurring in #if lines; the power set "
+                  "of each cluster (quick: full power set for clusters of <= 4 methods, yescrypt/scrypt/gost subsets for the large one) against "
+                  "background all-on (and all-off), all singletons, all leave-one-out sets and the named groups are each built from the working "
+                  "tree and driven through a 1 300-request API transcript (crypt_rn/crypt for 4 phrases x up to 5 settings per method, "
+                  "checksalt, gensalt x 5 counts x 2 entropy lengths, generated setting hashes, preferred method, NULL prefix), compared with "
+                  "the full build for enabled methods and with the unknown-tag pattern for disabled ones; distinct_nontrivial = selections "
+                  "processed",
+                  lambda s, t: dict(level1_selections=int(s.get("level1_selections", 0)), level2_configurations=int(s.get("level2_configurations", 0)),
+                                    level2_built=int(s.get("level2_built", 0)), clusters=int(s.get("clusters", 0)), named_groups=int(s.get("named_groups", 0)))),
+    assumptions=["not every one of the 2^16 selections is compiled: methods interact in C only through #if INCLUDE_a || INCLUDE_b guards, so the power set of each mechanically derived cluster is the stated reduction",
+                 "DES family: with descrypt off and bigcrypt on, 13-character settings with long phrases are refused and bigcrypt's generated setting is padded (documented in crypt-des.c); with bigcrypt off, every DES-shaped setting is a descrypt setting"],
+    nonvacuous=lambda s, t: None if s.get("level1_selections", 0) > 200 and s.get("level2_built", 0) > 40 else "too few configurations processed",
+    deadline=dict(quick=400, thorough=1700),
+    manifest=dict(
+        text="Exhaustive enumeration of build configurations: all hash selections at the generator level against an independent model of the "
+             "documented rules, and the complete power set of every interaction cluster at the compiled level, each selection built from the "
+             "working tree and compared request-by-request with the full build (enabled) or the unknown-tag behaviour (disabled).",
+        note="gcc -O1 static builds through the same content-hashed object cache; cluster reduction argued from the preprocessor guards, derived mechanically on every run.",
+        technique="exhaustive enumeration of configuration subsets (generator outputs for all 2^16-1, compiled libraries per interaction-cluster power set) with differential comparison against the full build",
+        ref="DESIGN.md 3/C19"),
 )
